@@ -3732,6 +3732,13 @@ impl KotoVm {
                         break;
                     }
 
+                    // The frame that's being unwound hasn't produced a return value,
+                    // so the caller's return register needs to be left untouched.
+                    let frame_count = self.call_stack.len();
+                    if frame_count > 1 {
+                        self.call_stack[frame_count - 2].return_value_register = None;
+                    }
+
                     self.pop_frame(KValue::Null)?;
 
                     if !self.call_stack.is_empty() {
